@@ -830,6 +830,18 @@ theorem reaches_eq_specActivates (custom : List (Ty × Custom)) (dflt total : Na
           | succ y =>
             by_cases h1 : max dflt (mulRound a c.depositRatio) ≤ total <;> by_cases h2 : total = 0 <;> simp [h1, h2]
 
+/-- **the order of the statements of `AddDeposit`, as written in the source now** (regenerated list, interpreted by the
+model): the coins are sent and the total is updated and stored before the minimum of the message type replaces the default
+and before the activation test, which therefore sees the NEW total and the type's minimum; the deposit record is written
+last.  With this order the interpreted run is the one-piece effect the theorems above and below speak about; with any
+other order (test hoisted above the update, minimum computed after the test, …) this obligation stops checking. -/
+theorem add_deposit_statement_order :
+    addDepositSteps =
+      ["getProposal", "statusCheck", "getParams", "defaultMin", "getRatio", "denomCheck", "ratioCheck", "sendCoins", "addTotal",
+       "setProposal", "msgMin", "flag", "activate", "getDeposit", "mergeDeposit", "hooks", "sdkCtx", "event", "setDeposit", "return"] ∧
+    ∀ (s : State) (p : Proposal) (who : Addr) (amt : Nat), depositRun s p who amt = depositEffect s p who amt :=
+  ⟨addDepositSteps_order, depositRun_eq⟩
+
 /-- **activation ⇔ minimum deposit, in every state**: a successful `AddDeposit` on a proposal in its deposit period moves
 it into voting if AND ONLY IF its new total reaches the minimum applicable to its message type — the default for its kind,
 or the configured share of the requested community-pool amount when that is larger (and nothing is requested in a
